@@ -32,12 +32,84 @@ def nml():
     return m
 
 
+BUILD = ["ctor"]      # how construct() creates components: the constructors, or one of the public factory paths
+BUILD_MODES = ("ctor", "utils-factory-str", "utils-factory-class", "class-factory", "parent-add")
+
+
+def is_comp(v):
+    return v is not None and ("o" in v or "l" in v)
+
+
 def construct(tree):
+    """the component tree of a keyword tree.  BUILD[0]:
+       ctor                  Class(**kwargs)
+       utils-factory-str     neuroml.utils.component_factory("Class", **kwargs)           (validate=True, the default)
+       utils-factory-class   neuroml.utils.component_factory(Class, **kwargs)
+       class-factory         Class.component_factory("Class", **kwargs)
+       parent-add            parent.add("Class", hint=<member>, **scalar kwargs), children added the same way
+    (the exact class Cell is always built by its constructor: the factories run setup_nml_cell() on it, which adds
+    default groups by design)"""
+    mode = BUILD[0]
     cls = getattr(nml(), tree["cls"])
-    kw = {}
+    if mode == "ctor" or tree["cls"] == "Cell":
+        kw = {}
+        for name, v in tree["kw"]:
+            kw[name] = conv(v)
+        return cls(**kw)
+    if mode == "parent-add":
+        import neuroml.utils
+        o = neuroml.utils.component_factory(tree["cls"], validate=False, **{k: conv(v) for k, v in tree["kw"] if not is_comp(v)})
+        fill_by_add(o, tree)
+        return o
+    kw = {name: conv(v) for name, v in tree["kw"]}
+    if mode == "utils-factory-str":
+        import neuroml.utils
+        return neuroml.utils.component_factory(tree["cls"], **kw)
+    if mode == "utils-factory-class":
+        import neuroml.utils
+        return neuroml.utils.component_factory(cls, **kw)
+    if mode == "class-factory":
+        return cls.component_factory(tree["cls"], **kw)
+    raise ValueError(mode)
+
+
+def canon(t):
+    return [t["cls"], sorted([n, (v if not is_comp(v) else [canon(x) for x in (v["l"] if "l" in v else [v["o"]])])] for n, v in t["kw"] if v is not None)]
+
+
+def accepts(o, member, cls_name):
+    """add() finds its target by comparing the MemberSpec's type name with the class name; a few members are declared
+    with another name than the class that is built for them (LEMS_Property ...): add() has no target for those"""
+    return any(m.get_name() == member and m.get_data_type() == cls_name for m in o._get_members())
+
+
+def fill_by_add(o, tree):
+    kids = []
     for name, v in tree["kw"]:
-        kw[name] = conv(v)
-    return cls(**kw)
+        if is_comp(v):
+            kids += [(name, k) for k in (v["l"] if "l" in v else [v["o"]])]
+    seen = []
+    for i, (member, k) in enumerate(kids):
+        leaf = not any(is_comp(v) for _, v in k["kw"])
+        # build-time validation of the child and of the parent when both are complete (last child, itself childless)
+        val = leaf and i == len(kids) - 1
+        key = json.dumps([member, canon(k)])
+        force = key in seen          # add() refuses an equal sibling unless forced
+        seen.append(key)
+        if not accepts(o, member, k["cls"]):
+            BUILD[0] = "class-factory"
+            try:
+                ko = construct(k)
+            finally:
+                BUILD[0] = "parent-add"
+            v = getattr(o, member)
+            v.append(ko) if isinstance(v, list) else setattr(o, member, ko)
+            continue
+        if k["cls"] == "Cell":
+            o.add(construct(k), hint=member, validate=False, force=force)
+            continue
+        ko = o.add(k["cls"], hint=member, validate=val, force=force, **{n: conv(v) for n, v in k["kw"] if not is_comp(v)})
+        fill_by_add(ko, k)
 
 
 def conv(v):
@@ -223,8 +295,60 @@ def sub(o, path):
     return o
 
 
+def writer_entry_points(o, tmp, ref_text):
+    """every public way of writing a document must leave the bytes NeuroMLWriter.write(doc, <path>) leaves"""
+    from neuroml.writers import NeuroMLWriter
+    mism = []
+    keep = []                       # the caller still holds its handles when the files are read
+    try:
+        fn = os.path.join(tmp, "entry_default_close.nml")
+        fh = open(fn, "w")
+        keep.append(fh)
+        NeuroMLWriter.write(o, fh)                  # documented default: close=True
+        got = open(fn).read()
+        if got != ref_text:
+            mism.append(["open file object, default close=True", "file holds %d characters of the %d written through a path; well-formed: %s" % (
+                len(got), len(ref_text), lx_validate_text(got)[0]["wellformed"])])
+    except Exception as e:  # noqa
+        mism.append(["open file object, default close=True", "raises " + type(e).__name__ + ": " + str(e)[:120]])
+    try:
+        fn = os.path.join(tmp, "entry_noclose.nml")
+        fh = open(fn, "w")
+        keep.append(fh)
+        NeuroMLWriter.write(o, fh, close=False)
+        if fh.closed:
+            mism.append(["open file object, close=False", "the caller's handle was closed"])
+        else:
+            fh.close()
+        got = open(fn).read()
+        if got != ref_text:
+            mism.append(["open file object, close=False (caller closes)", "file holds %d characters of %d; well-formed: %s" % (
+                len(got), len(ref_text), lx_validate_text(got)[0]["wellformed"])])
+    except Exception as e:  # noqa
+        mism.append(["open file object, close=False", "raises " + type(e).__name__ + ": " + str(e)[:120]])
+    try:
+        f = io.StringIO()
+        NeuroMLWriter.write(o, f, close=False)
+        if f.getvalue() != ref_text:
+            mism.append(["StringIO, close=False", "text differs from the path-written file"])
+        f = io.StringIO()
+        nd = writer_namespacedef()
+        o.export(f, 0, name_=_ND.get("name") or "neuroml", namespacedef_=nd)
+        if f.getvalue() != ref_text:
+            mism.append(["component.export to a StringIO (writer's namespace definitions)", "text differs from the path-written file"])
+    except Exception as e:  # noqa
+        mism.append(["StringIO", "raises " + type(e).__name__ + ": " + str(e)[:120]])
+    for fh in keep:
+        try:
+            fh.close()
+        except Exception:  # noqa
+            pass
+    return mism
+
+
 def run_case(case, order, tmp, want):
     r = {}
+    BUILD[0] = case.get("build", "ctor")
     try:
         o = construct(case["tree"])
         for path, member, value in case.get("post", []):
@@ -233,6 +357,8 @@ def run_case(case, order, tmp, want):
     except Exception as e:  # noqa
         r["obj_err"] = type(e).__name__ + ": " + str(e)[:200]
         return r
+    finally:
+        BUILD[0] = "ctor"
     if "rec" in want:
         r["rec"] = run_validate(o, True)
     if "nonrec" in want:
@@ -257,6 +383,9 @@ def run_case(case, order, tmp, want):
         try:
             from neuroml.writers import NeuroMLWriter
             NeuroMLWriter.write(o, fn)
+            ptxt = open(fn).read()
+            r["path_lx"], _ = lx_validate_text(ptxt)
+            r["entry_mismatch"] = writer_entry_points(o, tmp, ptxt)
             from neuroml.utils import is_valid_neuroml2
             try:
                 r["file_valid"] = bool(is_valid_neuroml2(fn))
